@@ -475,7 +475,10 @@ func c17(c *Ctx) {
 					}
 				}
 				r.Check(FuncName(fn)+":host-tag-independent-of-other-tags", bad == "", cl.Pos(), "the ;host= tag does not depend on the number of tags"+map[bool]string{true: "", false: " (written only when " + bad + ")"}[bad == ""])
-				okSrc := cmpHolds(factsAt(cl.Block()), func(v ssa.Value) bool { return strings.Contains(pathOf(v), "source") }, func(v ssa.Value) bool { s, ok := constString(v); return ok && s == "" }, token.NEQ)
+				// (directly, or carried by a flag: needHost := source != ""; ... if needHost { write })
+				okSrc := holdsAtOrViaFlag(cl.Block(), func(facts []canonCond) bool {
+					return cmpHolds(facts, func(v ssa.Value) bool { return strings.Contains(pathOf(v), "source") }, func(v ssa.Value) bool { s, ok := constString(v); return ok && s == "" }, token.NEQ)
+				})
 				r.Check(FuncName(fn)+":host-tag-when-source", okSrc, cl.Pos(), "the ;host= tag is written when the series has a source")
 			}
 		}
